@@ -192,6 +192,14 @@ class FileCtx:
             raise Undecided('items under contract not found in %s: %s' % (self.rel, sorted(missing)))
 
     def guard_rest(self, why, skip=()):
+        n0_ = len(self.unit.entries)
+        n_ = self._guard_rest(why, skip)
+        for g_ in self.unit.entries[n0_:]:
+            if isinstance(g_, Guard):
+                g_.from_rest = True
+        return n_
+
+    def _guard_rest(self, why, skip=()):
         """hash guards (contracts/trusted_hashes.json) for every method of every impl block of this file that the unit has no
         entry for: code the unit does not verify but whose behaviour its trusted boundary (opaque accessors, stubs) stands for"""
         import os
@@ -443,6 +451,9 @@ class Unit:
                     exp = _trusted_hashes().get(key)
                     if exp is not None and exp != hv:
                         raise Undecided('the text of %s in %s changed, but the unit models it by a trusted stub (%s): no verdict' % (e.fn, e.file, e.why))
+                    if exp is None and getattr(e, 'from_rest', False) and _trusted_hashes() and not os.environ.get('OQ3_TRUSTED_REGEN'):
+                        # a function that did not exist when the rest of this file was pinned (e.g. a new override of a trait default method)
+                        raise Undecided('%s was added to %s, whose functions outside the verified set are pinned (%s): no verdict' % (e.fn, e.file, e.why))
                     self.guards_ok.append('%s:%s' % (e.file, e.fn))
                     continue
                 if got != e.expected:
@@ -624,6 +635,12 @@ class Unit:
             text, l32 = desugar_str_patterns(text)
             for ln_ in l32:
                 self.desugar_log.append(('D32', '%s: %s' % (e.qualname, ln_)))
+        if getattr(e, 'bool_compound', False):
+            # D36: `X |= E;` / `X &= E;` on bools (Verus has only the short-circuit forms): E is evaluated first, as the original does
+            text, n36 = re.subn(r'(?m)^(\s*)([A-Za-z_][\w.]*)\s*(\|=|&=)\s*([^;\n]+);[ \t]*$',
+                                lambda m_: '%s{ let oq3_b = %s; %s = %s %s oq3_b; }' % (m_.group(1), m_.group(4), m_.group(2), m_.group(2), '||' if m_.group(3) == '|=' else '&&'), text)
+            if n36:
+                self.desugar_log.append(('D36', '%s: %d compound `|=` / `&=` on a bool -> `{ let b = E; X = X || b; }`' % (e.qualname, n36)))
         if re.search(r'\bcontinue\b', text) and re.search(r'\bfor\b', text) and not e.trusted:
             from .inline import desugar_for_continue, drop_tail_continues
             text, n31b = drop_tail_continues(text)
